@@ -48,6 +48,7 @@ class Obs:
         self.pending_out = 0
         self.wsgi = None
         self.spin = None
+        self.end_seq = None
 
     @property
     def outbytes(self):
@@ -70,6 +71,17 @@ class Obs:
             e for e in self.trace.events
             if e[2] == "app" and (inst is None or e[4].get("inst") == inst) and (kind is None or e[3] == kind)
         ]
+
+    def blocked_puts(self):
+        """diag: {inst: message type} for deliveries to an application queue that never returned."""
+        open_ = {}
+        for e in self.trace.events:
+            if e[2] == "diag" and e[3] == "put?":
+                open_[e[4]["scope"]] = e[4]["type"]
+            elif e[2] == "diag" and e[3] == "put.":
+                open_.pop(e[4]["scope"], None)
+        by_scope = {id(sc): inst for inst, sc in (self.apps.scopes.items() if self.apps is not None and hasattr(self.apps, "scopes") else [])}
+        return {by_scope.get(k, -1): v for k, v in open_.items()}
 
     def instances(self):
         return [e[4]["inst"] for e in self.trace.events if e[2] == "app" and e[3] == "start"]
@@ -129,6 +141,35 @@ def _mk_reactor(case, trace):
     raise ValueError(r["kind"])
 
 
+class _PutProbe:
+    """diag probe: records when the server's delivery of a message to an application queue starts and
+    returns ("put?" / "put."), keyed by id(scope).  Used only to classify known findings."""
+
+    def __init__(self, cls, trace):
+        self.cls, self.trace = cls, trace
+        self.orig = cls.spawn_app
+
+    def __enter__(self):
+        orig, trace = self.orig, self.trace
+
+        async def spawn_app(tg, app, config, scope, send):
+            put = await orig(tg, app, config, scope, send)
+            sid = id(scope)
+
+            async def traced_put(msg):
+                trace.ev("diag", "put?", scope=sid, type=msg.get("type") if isinstance(msg, dict) else None)
+                await put(msg)
+                trace.ev("diag", "put.", scope=sid)
+
+            return traced_put
+
+        self.cls.spawn_app = spawn_app
+        return self
+
+    def __exit__(self, *a):
+        self.cls.spawn_app = self.orig
+
+
 def _jitter_fn(case):
     sched = case.get("sched") or {}
     nj = sched.get("net_jitter")
@@ -162,7 +203,9 @@ def run_asyncio(case):
     async def main(loop):
         trace = Trace(loop.time)
         obs.trace = trace
-        with Sanitizers(trace) as san:
+        from hypercorn.asyncio.task_group import TaskGroup as _TG
+
+        with _PutProbe(_TG, trace), Sanitizers(trace) as san:
             loop.set_exception_handler(san.loop_handler)
             config, ah, eh = _mk_config(case, trace, san)
             app, apps = _mk_app(case, trace)
@@ -297,6 +340,7 @@ def run_asyncio(case):
             obs.access = list(ah.records)
             obs.errors = list(eh.records)
             # ---- teardown (not observed) --------------------------------------------------
+            obs.end_seq = len(trace.events)
             loop.set_exception_handler(lambda l, c: None)
             if not tr._lost:
                 tr.net_reset()
@@ -379,7 +423,9 @@ def run_trio(case):
     async def main():
         trace = Trace(trio.current_time)
         obs.trace = trace
-        with Sanitizers(trace) as san:
+        from hypercorn.trio.task_group import TaskGroup as _TG
+
+        with _PutProbe(_TG, trace), Sanitizers(trace) as san:
             config, ah, eh = _mk_config(case, trace, san)
             app, apps = _mk_app(case, trace)
             obs.apps = apps
@@ -514,6 +560,7 @@ def run_trio(case):
                 obs.access = list(ah.records)
                 obs.errors = list(eh.records)
                 # ---- teardown (not observed) ----------------------------------------------
+                obs.end_seq = len(trace.events)
                 inner.net_reset()
                 inner.net_resume()
                 nursery.cancel_scope.cancel()
@@ -543,13 +590,12 @@ def run_trio(case):
 
 
 def run_case(case, backend):
-    gc_was = gc.isenabled()
-    try:
-        if backend == "asyncio":
-            return run_asyncio(case)
-        if backend == "trio":
-            return run_trio(case)
+    if backend == "asyncio":
+        obs = run_asyncio(case)
+    elif backend == "trio":
+        obs = run_trio(case)
+    else:
         raise ValueError(backend)
-    finally:
-        if gc_was:
-            gc.enable()
+    if obs.trace is not None and obs.end_seq is not None:
+        del obs.trace.events[obs.end_seq:]  # what happened during teardown is not part of the observation
+    return obs
